@@ -83,7 +83,7 @@ let output ord cp o ps want =
       (* account_t::amount of every account of the tree (pre-order) *)
       let m = get (mark (max_depth ps) ord cp o ps []) in
       List.iter (fun (a, _) ->
-          let v = simplified_or_zero (get (own ord o ps a)) in
+          let v = simplified_or_zero (get (own_of ord o ps a)) in
           add (Printf.sprintf "own %s|%s" (name_of a) (show_value v))) m.m_pre
     end;
     if has "col" then begin
